@@ -132,7 +132,11 @@ func init() {
 		return SliceV{arr: arr, off: 0, len: -1, cap: -1}
 	})
 	v("DeepEqual", func(e *Engine, fn *ssa.Function, a []Value) Value {
-		return e.deepEqual(a[0], a[1], map[[2]*Cell]bool{}, 0)
+		r := e.deepEqual(a[0], a[1], map[[2]*Cell]bool{}, 0)
+		if e.debug && !(r.IsConst() && r.val != 0) {
+			e.stats.Stubs["deepdiff: "+e.deepDiff(a[0], a[1], "", 0)]++
+		}
+		return r
 	})
 	v("And", func(e *Engine, fn *ssa.Function, a []Value) Value { return e.ts.And(a[0].(*Term), a[1].(*Term)) })
 	v("Or", func(e *Engine, fn *ssa.Function, a []Value) Value { return e.ts.Or(a[0].(*Term), a[1].(*Term)) })
@@ -1171,4 +1175,72 @@ func (e *Engine) deepEqual(a, b Value, seen map[[2]*Cell]bool, depth int) *Term 
 		return e.valuesEqual(a, b)
 	}
 	return e.valuesEqual(a, b)
+}
+
+// deepDiff describes the first place where two values may differ (debug aid).
+func (e *Engine) deepDiff(a, b Value, path string, depth int) string {
+	if depth > 40 {
+		return path + " (deep)"
+	}
+	switch x := a.(type) {
+	case IfaceV:
+		y, ok := b.(IfaceV)
+		if !ok || (x.t == nil) != (y.t == nil) {
+			return path + " iface nil-ness"
+		}
+		if x.t == nil {
+			return ""
+		}
+		if !types.Identical(x.t, y.t) {
+			return path + " dynamic type " + x.t.String() + " vs " + y.t.String()
+		}
+		return e.deepDiff(x.v, y.v, path+"("+x.t.String()+")", depth+1)
+	case Ptr:
+		y, ok := b.(Ptr)
+		if !ok || x.IsNil() != y.IsNil() {
+			return path + " pointer nil-ness"
+		}
+		if x.IsNil() || x.c == y.c {
+			return ""
+		}
+		return e.deepDiff(x.c.v, y.c.v, path+"*", depth+1)
+	case *StructV:
+		y, ok := b.(*StructV)
+		if !ok {
+			return path + " kind"
+		}
+		for i := range x.f {
+			if d := e.deepDiff(x.f[i].v, y.f[i].v, fmt.Sprintf("%s.f%d", path, i), depth+1); d != "" {
+				return d
+			}
+		}
+		return ""
+	case SliceV:
+		y, ok := b.(SliceV)
+		if !ok || x.len != y.len {
+			return fmt.Sprintf("%s slice len %d vs %d", path, x.len, y.len)
+		}
+		for i := 0; i < x.len; i++ {
+			if d := e.deepDiff(x.arr.e[x.off+i].v, y.arr.e[y.off+i].v, fmt.Sprintf("%s[%d]", path, i), depth+1); d != "" {
+				return d
+			}
+		}
+		return ""
+	case *ArrayV:
+		y, ok := b.(*ArrayV)
+		if !ok {
+			return path + " kind"
+		}
+		for i := range x.e {
+			if d := e.deepDiff(x.e[i].v, y.e[i].v, fmt.Sprintf("%s[%d]", path, i), depth+1); d != "" {
+				return d
+			}
+		}
+		return ""
+	}
+	r := e.deepEqual(a, b, map[[2]*Cell]bool{}, 0)
+	if r.IsConst() && r.val != 0 {
+		return ""
+	}
+	return path + " value " + describe(a) + " vs " + describe(b)
 }
